@@ -206,6 +206,7 @@ pub fn total(thorough: bool) -> usize { if thorough { 500 * 400 + 100_000 } else
 
 pub fn run(sub: &str, opts: &Opts, w: &mut dyn Write) {
   if sub == "child" { child(opts); return; }
+  if sub == "grid" { grid(opts, w); return; }
   let exe = std::env::current_exe().unwrap();
   let (shard, nshards) = opts.shard();
   let n = total(opts.thorough);
@@ -247,5 +248,148 @@ pub fn run(sub: &str, opts: &Opts, w: &mut dyn Write) {
       break;
     }
     from = next;
+  }
+}
+
+// ---------------------------------------------------------------------------------------------------------------------
+// c01.grid: small operand domains enumerated completely, natively, in both engines.
+// One machine per instruction; the block `<instruction> ; HALT` at 0x0200 is translated once and then run from every
+// state of the grid through the translation and through the interpreter; registers, the status and the operand byte
+// at 0xC800 (and the two stack bytes below 0xD000 for PUSH) are compared.  One protocol line per instruction:
+//   c01.grid code=<hex> dom=<name> | n=<states run> bad=<mismatches> first=<state: interp vs translated>
+
+const GRID_AT: u16 = 0x0200;
+const EDGE8: [u8; 24] = [0x00, 0x01, 0x02, 0x07, 0x08, 0x09, 0x0a, 0x0f, 0x10, 0x11, 0x1f, 0x3f, 0x40, 0x66, 0x7f, 0x80, 0x81, 0x90, 0x99, 0x9a, 0xa0, 0xf0, 0xfe, 0xff];
+const EDGE16: [u16; 22] = [0x0000, 0x0001, 0x000f, 0x0010, 0x00ff, 0x0100, 0x0fff, 0x1000, 0x1234, 0x7fff, 0x8000, 0x8001, 0xc7ff, 0xc800,
+  0xcfff, 0xd000, 0xefff, 0xf000, 0xff00, 0xfffe, 0xffff, 0x0800];
+
+/// a grid state: AF, BC, DE, HL, SP and the byte at 0xC800
+type GState = ([u32; 5], u8);
+
+fn grid_outcome(core: &mut Core, st: u8) -> String {
+  let p = &mut core.memory as *mut MemoryAreas;
+  let r = &core.registers;
+  let (af, bc, de, hl, sp, ip, cy) = (r.af, r.bc, r.de, r.hl, r.sp, r.ip, r.cycles);
+  format!("{},{},{},{},{},{},{};{};{},{},{}", af, bc, de, hl, sp, ip, cy, st, memory_read_byte(p, 0xc800), memory_read_byte(p, 0xcffe), memory_read_byte(p, 0xcfff))
+}
+
+fn grid_set(core: &mut Core, s: &GState) {
+  let p = &mut core.memory as *mut MemoryAreas;
+  memory_write_byte(p, 0xc800, s.1); memory_write_byte(p, 0xc801, (s.0[0] >> 8) as u8);
+  memory_write_byte(p, 0xcffe, 0x5a); memory_write_byte(p, 0xcfff, 0xa5);
+  core.registers.af = s.0[0]; core.registers.bc = s.0[1]; core.registers.de = s.0[2]; core.registers.hl = s.0[3]; core.registers.sp = s.0[4];
+  core.registers.ip = GRID_AT as u32; core.registers.cycles = 0;
+}
+
+fn grid_run(code: &[u8], dom: &str, states: &mut dyn Iterator<Item = GState>, w: &mut dyn Write) {
+  let mut core = mk_core(0x03, 1, 3);
+  for (k, b) in code.iter().enumerate() { core.memory.rom[GRID_AT as usize + k] = *b; }
+  core.memory.rom[GRID_AT as usize + code.len()] = 0x76;
+  core.cache.set_rom_bank(core.memory.get_rom_bank());
+  let addr = core.cache.translate_code_block(&core.memory.rom, GRID_AT as usize, core.memory.as_ptr());
+  let (mut n, mut bad) = (0usize, 0usize);
+  let mut first = String::from("-");
+  for s in states {
+    n += 1;
+    grid_set(&mut core, &s);
+    let st = core.cache.call(addr, &mut core.registers);
+    let j = grid_outcome(&mut core, st);
+    grid_set(&mut core, &s);
+    let p = &mut core.memory as *mut MemoryAreas;
+    let st = interpreter::run_code_block(&mut core.registers, p);
+    let i = grid_outcome(&mut core, st);
+    if i != j {
+      bad += 1;
+      if bad == 1 { first = format!("af:{},bc:{},de:{},hl:{},sp:{},m:{}/interp:{}/translated:{}", s.0[0], s.0[1], s.0[2], s.0[3], s.0[4], s.1, i, j); }
+    }
+  }
+  writeln!(w, "c01.grid code={} dom={} | n={} bad={} first={}", hex(code), dom, n, bad, first).unwrap();
+}
+
+/// place `v` in the register an 8-bit operand index selects (0..7 = B C D E H L (HL) A); (HL) -> HL = 0xC800, memory byte
+fn with_r8(r: u8, v: u8, a: u8, f: u8) -> GState {
+  let mut regs = [((a as u32) << 8) | f as u32, 0x1122, 0x3344, 0xc800, 0xd000];
+  let mut m = 0x77u8;
+  match r {
+    0 => regs[1] = ((v as u32) << 8) | 0x22, 1 => regs[1] = 0x1100 | v as u32,
+    2 => regs[2] = ((v as u32) << 8) | 0x44, 3 => regs[2] = 0x3300 | v as u32,
+    4 => regs[3] = ((v as u32) << 8) | 0x66, 5 => regs[3] = 0x5500 | v as u32,
+    6 => m = v,
+    _ => regs[0] = ((v as u32) << 8) | f as u32,
+  }
+  (regs, m)
+}
+
+pub fn grid(opts: &Opts, w: &mut dyn Write) {
+  let (shard, nshards) = opts.shard();
+  let mut idx = 0usize;
+  let mut mine = || { idx += 1; idx % nshards == shard };
+  // 1. accumulator / flag instructions: every A x every flag nibble
+  for code in [vec![0x27u8], vec![0x2f], vec![0x37], vec![0x3f], vec![0x07], vec![0x0f], vec![0x17], vec![0x1f], vec![0xf5], vec![0xf5, 0xf1], vec![0xf5, 0xc1]] {
+    if !mine() { continue; }
+    let mut it = (0..=255u32).flat_map(|a| (0..16u32).map(move |f| ([(a << 8) | (f << 4), 0x1122, 0x3344, 0xc800, 0xd000], (a as u8) ^ 0x5a)));
+    grid_run(&code, "A*F", &mut it, w);
+  }
+  // 2. the eight ALU operations, register / immediate / (HL) form: every A x operands x every flag nibble's carry and half-carry
+  let operands: Vec<u8> = if opts.thorough { (0..=255u8).collect() } else { EDGE8.to_vec() };
+  for y in 0..8u8 {
+    for r in 0..8u8 {
+      if !mine() { continue; }
+      let ops = operands.clone();
+      let mut it = (0..=255u8).flat_map(|a| { let ops = ops.clone(); ops.into_iter().flat_map(move |v| vec![0x00u8, 0x10, 0x20, 0x30, 0xf0].into_iter().map(move |f| with_r8(r, v, a, f))) });
+      grid_run(&[0x80 + y * 8 + r], "A*r*F", &mut it, w);
+    }
+    for &v in operands.iter() {
+      if !mine() { continue; }
+      let mut it = (0..=255u32).flat_map(|a| vec![0x00u32, 0x10, 0x20, 0x30, 0xf0].into_iter().map(move |f| ([(a << 8) | f, 0x1122, 0x3344, 0xc800, 0xd000], 0x77u8)));
+      grid_run(&[0xc6 + y * 8, v], "A*F", &mut it, w);
+    }
+  }
+  // 3. every CB-prefixed instruction: every value of its operand x every flag nibble
+  for cb in 0..=255u8 {
+    if !mine() { continue; }
+    let r = cb & 7;
+    let mut it = (0..=255u8).flat_map(|v| (0..16u8).map(move |f| with_r8(r, v, 0x9c, f << 4)));
+    grid_run(&[0xcb, cb], "r*F", &mut it, w);
+  }
+  // 4. INC r / DEC r / LD r,n / LD r,r'
+  for r in 0..8u8 { for code in [vec![0x04 + 8 * r], vec![0x05 + 8 * r]] {
+    if !mine() { continue; }
+    let mut it = (0..=255u8).flat_map(|v| (0..16u8).map(move |f| with_r8(r, v, 0x9c, f << 4)));
+    grid_run(&code, "r*F", &mut it, w);
+  }}
+  for d in 0..8u8 { for s in 0..8u8 {
+    if d == 6 && s == 6 { continue; }
+    if !mine() { continue; }
+    let mut it = (0..=255u8).map(|v| with_r8(s, v, 0x9c, 0xb0));
+    grid_run(&[0x40 + 8 * d + s], "r", &mut it, w);
+  }}
+  // 5. 16-bit arithmetic at the edges: ADD HL,rr ; INC/DEC rr ; ADD SP,e ; LD HL,SP+e ; LD SP,HL ; PUSH/POP rr
+  let e16: Vec<u16> = EDGE16.to_vec();
+  for rr in 0..4u8 {
+    for code in [vec![0x09 + 16 * rr], vec![0x03 + 16 * rr], vec![0x0b + 16 * rr]] {
+      if !mine() { continue; }
+      let e = e16.clone();
+      let mut it = e.clone().into_iter().flat_map(|x| { let e = e.clone(); e.into_iter().flat_map(move |y| vec![0x00u32, 0xf0].into_iter().map(move |f| {
+        let mut regs = [0x9c00 | f, 0x1122, 0x3344, x as u32, 0xd000];
+        match rr { 0 => regs[1] = y as u32, 1 => regs[2] = y as u32, 2 => regs[3] = x as u32 ^ (y as u32 & 0), _ => regs[4] = y as u32 }
+        (regs, 0x77u8)
+      })) });
+      grid_run(&code, "HL*rr*F", &mut it, w);
+    }
+  }
+  for code0 in [0xe8u8, 0xf8] {
+    let es: Vec<u8> = if opts.thorough { (0..=255u8).collect() } else { EDGE8.to_vec() };
+    for e in es {
+      if !mine() { continue; }
+      let mut it = e16.clone().into_iter().flat_map(|sp| vec![0x00u32, 0xf0].into_iter().map(move |f| ([0x9c00 | f, 0x1122, 0x3344, 0x5566, sp as u32], 0x77u8)));
+      grid_run(&[code0, e], "SP*F", &mut it, w);
+    }
+  }
+  for code in [vec![0xf9u8], vec![0xc5, 0xd1], vec![0xd5, 0xe1], vec![0xe5, 0xc1], vec![0xf5, 0xe1]] {
+    if !mine() { continue; }
+    let e = e16.clone();
+    let mut it = e.clone().into_iter().flat_map(|x| { let e = e.clone(); e.into_iter().map(move |y| ([0x9cb0 ^ ((y as u32) << 4 & 0xf0), x as u32, y as u32, x as u32 ^ 0x00ff, 0xd000], 0x77u8)) });
+    grid_run(&code, "rr*rr", &mut it, w);
   }
 }
